@@ -20,6 +20,7 @@ import (
 	"fmt"
 	"math/big"
 	"os"
+	"runtime"
 	"strconv"
 	"strings"
 
@@ -40,12 +41,29 @@ import (
 // ---------- deterministic crypto/rand ----------
 
 // detRand serves crypto/rand from seeded streams. The standard library calls
-// randutil.MaybeReadByte (a 1-byte read with probability 1/2) to defeat exactly this; 1-byte reads
-// are answered from a separate stream so that the main stream does not shift.
+// randutil.MaybeReadByte (a 1-byte read with probability 1/2) to defeat exactly this; those reads
+// (recognised by their caller) are answered from a separate stream so that the main stream does not
+// shift. Every other read, also a genuine 1-byte one (a PSS salt of length 1), comes from the main stream.
 type detRand struct{ main, single *hlib.Rng }
 
+func maybeReadByteCall() bool {
+	var pcs [8]uintptr
+	n := runtime.Callers(2, pcs[:])
+	fr := runtime.CallersFrames(pcs[:n])
+	for i := 0; i < 6; i++ {
+		f, more := fr.Next()
+		if strings.HasSuffix(f.Function, "randutil.MaybeReadByte") {
+			return true
+		}
+		if !more {
+			break
+		}
+	}
+	return false
+}
+
 func (d *detRand) Read(p []byte) (int, error) {
-	if len(p) == 1 {
+	if len(p) == 1 && maybeReadByteCall() {
 		p[0] = byte(d.single.U64())
 		return 1, nil
 	}
@@ -1334,6 +1352,9 @@ func main() {
 	h.ed25519All()
 	h.rsaAll(mats)
 	odd := h.rsaSizes() // rsasizes.go: moduli whose bit length is not a multiple of 8
+	all := append(append([]*rsaMat{}, mats...), odd...)
+	h.pssSaltGrid(all) // saltgrid.go: salt lengths 1, hLen−1, hLen, hLen+1, max−1, max of every modulus × hash
 	h.pssSaltZero(mats)
 	h.rsaSizesSaltZero(odd)
+	h.pssGridSaltZero(all)
 }
